@@ -3,7 +3,8 @@ import LlgoVerif.Model.Layout
 /-! Line-protocol driver for C08.
 
     `q  <target> <term>`        → `a=<size>,<align>,<offs> b=<size>,<align>,<offs> c=<size>,<align>,<fieldalign>,<offs>`
-    `qf`, `mbf`                 → as `q`, `mb` with the descriptor alignment table of fixes/C08-1.diff
+    `set align-table fixed|orig`, `set func-words 1|2` → `ok`; select the variant of the descriptor code used by `q`/`mb`
+    every `q`/`mb` answer ends with ` e=<size>,<align>` = the descriptor referenced for an element of that type
     `mb <target> <key> <elem>`  → `ks=<n> es=<n> bs=<n> a=… b=… c=…`  (the three computations on the bucket struct)
     `cl <target> <term>`        → `c=<size>,<align>,<offs>` (natural C layout) or `notc`
     `pf <target> <term>`        → `<padFree t> <padFree (toRaw t)>`
@@ -100,49 +101,48 @@ def offsStr (isS : Bool) (o : List Nat) : String :=
 
 def layStr (isS : Bool) (l : Layout) : String := s!"{l.size},{l.align},{offsStr isS l.offsets}"
 
-/-- `fixed` selects the descriptor alignment table with fixes/C08-1.diff applied -/
-def three (fixed : Bool) (tg : Target) (t : GoType) : String :=
+/-- which variant of the descriptor code the working tree has: `fixedAlign` = alignment table of fixes/C08-1.diff,
+    `fw` = words recorded for a function type (1; 2 with fixes/C08-2.diff) -/
+structure Variant where
+  fixedAlign : Bool := false
+  fw : Nat := 1
+
+def three (v : Variant) (tg : Target) (t : GoType) : String :=
   let s := isStruct t
-  let c := if fixed then abiTableFixed tg t else abiTable tg t
-  s!"a={layStr s (goSizes tg t)} b={layStr s (llvmLayout tg t)} c={c.size},{c.align},{c.align},{offsStr s c.offsets}"
+  let c := if v.fixedAlign then abiTableFixed tg t else abiTable tg t
+  let ba := if v.fixedAlign then abiBasicAlignFixed tg else abiBasicAlign tg
+  let ea := abiAlignG tg ba (publicType (toRaw t))
+  s!"a={layStr s (goSizes tg t)} b={layStr s (llvmLayout tg t)} c={c.size},{c.align},{c.align},{offsStr s c.offsets} e={elemDescSize tg v.fw t},{ea}"
 
 def showTarget (t : Target) : String :=
   s!"ptr={t.ptrSize} gc={t.gcStyle} word={t.wordSize} maxalign={t.maxAlign} i8={t.llI8} i16={t.llI16} i32={t.llI32} i64={t.llI64} f32={t.llF32} f64={t.llF64} p={t.llPtr} wf={wfTarget t} abiok={abiOK t}"
 
-def handle (line : String) : String :=
+def handle (v : Variant) (line : String) : Variant × String :=
   match fields line with
+  | ["set", "align-table", x] => ({ v with fixedAlign := x == "fixed" }, "ok")
+  | ["set", "func-words", x] => ({ v with fw := x.toNat?.getD 1 }, "ok")
   | ["q", tgs, ts] =>
     match parseTarget tgs, parseTerm ts with
-    | some tg, some t => three false tg t
-    | _, _ => "bad-op"
-  | ["qf", tgs, ts] =>
-    match parseTarget tgs, parseTerm ts with
-    | some tg, some t => three true tg t
-    | _, _ => "bad-op"
+    | some tg, some t => (v, three v tg t)
+    | _, _ => (v, "bad-op")
   | ["mb", tgs, ks, vs] =>
     match parseTarget tgs, parseTerm ks, parseTerm vs with
-    | some tg, some k, some v =>
-      let (a, b, c) := mapSizes tg k v
-      s!"ks={a} es={b} bs={c} " ++ three false tg (mapBucket tg (toRaw k) (toRaw v))
-    | _, _, _ => "bad-op"
-  | ["mbf", tgs, ks, vs] =>
-    match parseTarget tgs, parseTerm ks, parseTerm vs with
-    | some tg, some k, some v =>
-      let (a, b, c) := mapSizes tg k v
-      s!"ks={a} es={b} bs={c} " ++ three true tg (mapBucket tg (toRaw k) (toRaw v))
-    | _, _, _ => "bad-op"
+    | some tg, some k, some e =>
+      let (a, b, c) := mapSizes tg k e
+      (v, s!"ks={a} es={b} bs={c} " ++ three v tg (mapBucket tg (toRaw k) (toRaw e)))
+    | _, _, _ => (v, "bad-op")
   | ["cl", tgs, ts] =>
     match parseTarget tgs, parseTerm ts with
-    | some tg, some t => if isC t then "c=" ++ layStr (isStruct t) (cLayout tg (cmaxOf tgs) t) else "notc"
-    | _, _ => "bad-op"
+    | some tg, some t => (v, if isC t then "c=" ++ layStr (isStruct t) (cLayout tg (cmaxOf tgs) t) else "notc")
+    | _, _ => (v, "bad-op")
   | ["pf", tgs, ts] =>
     match parseTarget tgs, parseTerm ts with
-    | some tg, some t => s!"{padFree tg t} {padFree tg (toRaw t)}"
-    | _, _ => "bad-op"
+    | some tg, some t => (v, s!"{padFree tg t} {padFree tg (toRaw t)}")
+    | _, _ => (v, "bad-op")
   | ["tg", tgs] =>
     match parseTarget tgs with
-    | some tg => showTarget tg
-    | none => "bad-op"
-  | _ => "bad-op"
+    | some tg => (v, showTarget tg)
+    | none => (v, "bad-op")
+  | _ => (v, "bad-op")
 
-def main : IO Unit := lineLoop handle
+def main : IO Unit := lineLoopSt ({} : Variant) handle
